@@ -227,10 +227,120 @@ def is_limit_check(body):
 
 
 def expand_reader(crate, b):
-    return inline.expand(crate, b, depth=2, pred=lambda cb: not is_limit_check(cb))
+    return inline.expand(crate, b, depth=2, pred=lambda cb: not is_limit_check(cb), max_callee_blocks=250)
+
+
+class _Buffered:
+    """records check / violation / ok / floor calls so that a form of a rule can be tried and replayed or discarded"""
+    def __init__(self, ctx):
+        self.F, self.ctx, self.calls, self.bad = ctx.F, ctx, [], 0
+
+    def check(self, cond, *a, **k):
+        self.calls.append(("check", (cond,) + a, k))
+        self.bad += 0 if cond else 1
+        return cond
+
+    def violation(self, *a, **k):
+        self.calls.append(("violation", a, k))
+        self.bad += 1
+
+    def ok(self, *a, **k):
+        self.calls.append(("ok", a, k))
+
+    def note(self, *a, **k):
+        self.calls.append(("note", a, k))
+
+    def floor(self, rule, name, measured, floor):
+        self.calls.append(("floor", (rule, name, measured, floor), {}))
+        self.bad += 1 if measured < floor else 0
+
+    def replay(self):
+        for kind, a, k in self.calls:
+            getattr(self.ctx, kind)(*a, **k)
+
+
+def check_reader_paths(ctx, crate, b, limited, rule):
+    """Representation-independent form of the reader rule (used when the buffer is not a plain accumulator local — a state
+    enum, a struct): on every path from the arrival of a chunk (the Some edge of a match on next() / try_next()) to the next
+    pull or to an Ok return, a size-limit check succeeds; Ok is returned only after the stream reported its end; stream items
+    are consumed through `?` only.  Returns True when all of it holds."""
+    F = ctx.F
+    b_plain = b
+    for ibb, t in [(bb, t) for bb, t in b_plain.calls() if t["call"]["name"] in ("next", "try_next")]:
+        if not consumed_by_try_only(b_plain, place_local(t["dest"])):
+            return False
+    # the path argument is made on the lowered body (`?` and combinators as matches, known variants threaded): an Err built
+    # inside a spliced helper then leaves through the Err arm of the caller's `?` instead of merging with its Ok
+    orig = crate.body(b.id)
+    if orig is not None:
+        b = inline.expand(crate, orig, depth=2, pred=lambda cb: not is_limit_check(cb), max_callee_blocks=250, lower=True)
+    cfg = CFG(b)
+    vt = dt.value_tracer(b)
+    item_calls = [(bb, t) for bb, t in b.calls() if t["call"]["name"] in ("next", "try_next")]
+    oks = [o for o in dt.ok_return_blocks(b) if o[2]["r"]["variant"] == "Ok" and o[2]["r"].get("adt") == "core::result::Result" and "Bytes" in tystr(b.local_ty(place_local(o[2]["d"])) or {})]
+    if not item_calls or not oks:
+        return False
+    some_targets, none_targets = set(), set()
+    for sbb, blk in enumerate(b.blocks):
+        if "switch" not in blk["t"]:
+            continue
+        atom = dt.switch_atom(b, sbb)
+        if atom[0] != "discr" or ty_adt(dt.place_ty(b, F, atom[1]) or {}) != "core::option::Option":
+            continue
+        if not any(dt.derives_from_call(b, {"cp": atom[1]}, ibb, vt) for ibb, _ in item_calls):
+            continue
+        tmap = dict((v, x) for v, x in blk["t"]["targets"])
+        none_t = tmap.get(0) if 0 in tmap else (blk["t"]["otherwise"] if set(tmap) == {1} else None)
+        some_t = tmap.get(1) if 1 in tmap else (blk["t"]["otherwise"] if set(tmap) == {0} else None)
+        if some_t is not None:
+            some_targets.add(some_t)
+        if none_t is not None and none_t != some_t and set(cfg.pred[none_t]) == {sbb}:
+            none_targets.add(none_t)
+    if not some_targets or not none_targets:
+        return False
+    okbbs = {o[0] for o in oks}
+    if not all(any(cfg.dominates(tg, okbb) for tg in none_targets) for okbb in okbbs):
+        return False
+    if limited:
+        lim_calls = [(bb, t) for bb, t in b.calls() if t["call"].get("local") and crate.body(t["call"].get("id")) is not None and is_limit_check(crate.body(t["call"]["id"]))]
+        if not lim_calls:
+            return False
+        succ_edges = set()
+        for cbb, t in lim_calls:
+            for sbb, v in dt.success_edges(b, F, place_local(t["dest"])):
+                sw = b.blocks[sbb]["t"]
+                for val, tg in [(v_, tg_) for v_, tg_ in sw["targets"]] + [(None, sw["otherwise"])]:
+                    if val == v and cfg.dominates(cbb, sbb):
+                        succ_edges.add((sbb, tg))
+        pulls = {bb for bb, _ in item_calls}
+        for st in some_targets:
+            seen, stack = set(), [st]
+            while stack:
+                x = stack.pop()
+                if x in seen:
+                    continue
+                seen.add(x)
+                if x in pulls or x in okbbs:
+                    return False
+                for y in cfg.succ[x]:
+                    if (x, y) not in succ_edges:
+                        stack.append(y)
+    return True
 
 
 def check_reader(ctx, crate, b, limited=True, rule="R6.2"):
+    """the accumulator form of the rule; when it does not apply to the way the reader keeps its data, the path form"""
+    buf = _Buffered(ctx)
+    check_reader_acc(buf, crate, b, limited, rule)
+    who = b.path.split("::")[-1] if b.kind != "coroutine" else "async_read_body"
+    if buf.bad and check_reader_paths(ctx, crate, b, limited, rule):
+        ctx.ok(rule, b.loc(), f"{who}: (path form) after every chunk a size-limit check succeeds before the next pull / before Ok; Ok only after the stream ended; items consumed through `?`")
+        ctx.note(f"{rule} {who}: the accumulator form of the rule does not match how this reader keeps its data ({buf.bad} unmet clause(s)); decided in the representation-independent path form")
+        return
+    buf.replay()
+
+
+def check_reader_acc(ctx, crate, b, limited=True, rule="R6.2"):
     """typestate over read_body / async_read_body"""
     F = ctx.F
     cfg = CFG(b)
@@ -385,10 +495,11 @@ def check_limit_fn(ctx, crate, readers):
                 ids.add(f["id"])
     ctx.check(len(ids) == 1, "R6.2", "conjure_http", "limit-check|unique", f"expected one shared limit-check function, found {sorted(ids)}", nontrivial=False)
     for i in ids:
-        b = crate.body(i)
+        b = inline.expand(crate, crate.body(i), depth=1, pred=lambda cb: cb.d.get("vis") != "pub", lower=True)
         cfg = CFG(b)
         tr = dt.value_tracer(b)
-        errs = [(bb, j, s) for bb, j, s in b.stmts() if place_local(s["d"]) == 0 and s["r"].get("variant") == "Err"]
+        rets_ = dt.return_aliases(b)
+        errs = [(bb, j, s) for bb, j, s in b.stmts() if place_local(s["d"]) in rets_ and not place_proj(s["d"]) and s["r"].get("variant") == "Err" and s["r"].get("adt") == "core::result::Result"]
         oks = dt.ok_return_blocks(b)
         good = len(errs) == 1
         if good:
@@ -521,7 +632,7 @@ def run(ctx):
     F = ctx.F
     c = F.crate("conjure_http")
     ctx.units["conjure_http bodies"] = len(c.bodies)
-    std = [(tr_, inline.expand(c, b_, depth=2, pred=lambda cb: cb.d.get("vis") != "pub" and not is_limit_check(cb))) for tr_, b_ in find_impl_bodies(c, STD)]
+    std = [(tr_, inline.expand(c, b_, depth=2, pred=lambda cb: cb.d.get("vis") != "pub" and not is_limit_check(cb), lower=True)) for tr_, b_ in find_impl_bodies(c, STD)]
     ctx.floor("R6.1", "StdRequestDeserializer deserialize bodies", len(std), 2)
     for trait, b in std:
         check_pipeline(ctx, c, trait, b)
@@ -627,6 +738,18 @@ def run(ctx):
                         hit = bool(a_src & v_src)
                 good = good and hit
             how = "Ok(e) only under mime_matches(content_type, e)"
+        if not good:
+            # form C: one combinator chain; decided on the lowered body: every Ok(..) that reaches the return value carries the
+            # result of the single find(|e| mime_matches(..)) over the registered encodings
+            b0_ = c.body(b.id)
+            bl = inline.expand(c, b0_, depth=2, pred=lambda cb: cb.d.get("vis") != "pub" and cb.name != "mime_matches", lower=True)
+            fl = [(bb, t) for bb, t in bl.calls() if t["call"]["name"] in ("find", "find_map")]
+            okl = [o for o in dt.ok_return_blocks(bl) if o[2]["r"].get("variant") == "Ok" and o[2]["r"].get("adt") == "core::result::Result"]
+            pred_ok = len(fl) == 1 and any(any(t2["call"]["name"] == "mime_matches" for _, t2 in x.calls()) for x in c.closures_of(b0_))
+            if pred_ok and okl:
+                vt_ = Tracer(bl, through_agg=True, transparent=dt.value_tracer(bl).transparent)
+                good = all(dt.derives_from_call(bl, o[2]["r"]["ops"][0], fl[0][0], vt_) for o in okl)
+                how = "every Ok carries the result of find(mime_matches) (lowered combinator chain)"
         ctx.check(good, "R6.4", b.loc(), "request_body_encoding|no-fallback", "request_body_encoding must return exactly the registered encoding found by the media-type match, or an error (no fallback encoding)",
                   instance=f"request_body_encoding: {how}")
     mm = [b for b in c.bodies if b.name == "mime_matches"]
